@@ -26,6 +26,17 @@ CHECKS = {
              "run of the real element is covered, which no terminating test can observe.",
         note="same trusted base as C03; progress is required only when producer and consumer cooperate forever",
         ref="4 (C03/C04)"),
+    "C06": dict(
+        technique="TLA+ contract (WbIcContract) model-checked by TLC (safety + liveness Served under fairness) on the "
+                  "closed-loop product of nondeterministic Wishbone masters/slaves with the transition graph of the "
+                  "real InterconnectShared/Crossbar netlists",
+        text="all request arrival patterns (back-to-back, simultaneous, wait states, withdrawn unmapped requests), all "
+             "slave latencies from combinational feedback upwards and ack/err answers are explored for 1-3 masters x "
+             "1-3 slaves, shared and crossbar, registered and unregistered decode, three address maps built from real "
+             "SoCRegion decoders; six safety clauses are invariants, Served is checked on the complete graph.",
+        note="masters hold strobed requests (Wishbone classic); data identity by tags (master id in dat_w, slave id in "
+             "dat_r); bounds 3x3; known finding: registered decode + zero-latency slave (listed)",
+        ref="4 (C06)"),
     "C15": dict(
         technique="TLA+ contract (EventContract) model-checked by TLC on the closed-loop product of free trigger "
                   "waveforms and CSR bus operations with the transition graph of the real EventManager+CSRBank netlist",
